@@ -76,6 +76,14 @@ CHECKS = {
    design_ref="DESIGN.md §4 C06",
    note="Trusted: Kani 0.68/CBMC 6.11; stand-ins Value/BinaryData/Error in kani/c06world; the invariant as written in the harness. Bounds: 3 slots, queue of 0..3 entries, one level of tuple nesting.",
  ),
+ "C10": dict(
+   engine="E1 SQVM (z3), equivalence of two bytecodes",
+   technique="symbolic execution of the original and the packaged function value (real tree_shake, JSON round trip, real Environment merge) on the same symbolic argument; pairwise path equivalence by SMT; models replayed by applying both real function values on the real executor",
+   category="translation_validation",
+   text="FOR PROGRAMS WITH INPUTS ONLY. A closed program leaves nothing to quantify over; a program that evaluates to a function does. For each function-valued corpus program (generated small functions whose siblings differ only in constants, std exports with ground parameters, generated generic call sites) the real packaging steps are applied and the function value each variant evaluates to is shown equal to the original FOR EVERY ARGUMENT of the declared parameter type (all constructor shapes to depth 3, unbounded integers): for every pair of compatible paths the outcomes are equal. The merge variant merges the program after a sibling of identical structure and a seeded other program, which is what exposes index-remapping mistakes. Closed programs, the `%m` import path and longer merge histories are not covered.",
+   design_ref="DESIGN.md §4 C10",
+   note="Trusted: SQVM semantics/builtin models (validated against the real executor), z3; values of different id spaces are compared by tuple name and field labels; function-valued results by arity only.",
+ ),
 }
 
 NOT_APPLICABLE = {
